@@ -11,11 +11,6 @@ pub open spec fn osum(s: Seq<(Option<u64>, F64)>, n: int, m: Map<u64, F64>) -> r
     if n <= 0 { 0real } else { osum(s, n - 1, m) + rv(s[n - 1].1) * oval(m, s[n - 1].0) }
 }
 pub open spec fn ofin(s: Seq<(Option<u64>, F64)>) -> bool { forall|i: int| 0 <= i < s.len() ==> fin((#[trigger] s[i]).1) }
-pub proof fn lemma_sel_ext<T>(v: Seq<T>, a: Seq<bool>, b: Seq<bool>, n: int)
-    requires 0 <= n <= a.len(), n <= b.len(), forall|i: int| 0 <= i < n ==> a[i] == b[i]
-    ensures sel(v, a, n) == sel(v, b, n)
-    decreases n
-{ if n > 0 { lemma_sel_ext(v, a, b, n - 1); } }
 // every selected item is an item of the list (with its flag set), in order
 pub proof fn lemma_sel_from<T>(v: Seq<T>, b: Seq<bool>, n: int, j: int) -> (i: int)
     requires 0 <= n <= v.len(), n <= b.len(), 0 <= j < sel(v, b, n).len()
